@@ -284,7 +284,8 @@ def analyse_function(idx, mod, cls, fn, focus=None):
     res = {}
     spans.ADJACENT = adjacent_names(fn)
     facts = facts_for(idx, mod)
-    if cls is not None and cls.name == 'ChoiceModel' and fn.name == 'parse':
+    if cls is not None and any(k.name == 'ChoiceModel' for k in idx.mro(cls)):
+        # every method of the choice model (parse and helpers extracted from it) derives end from len(text)
         facts = choice_facts(idx, mod)
 
     def on_check(w, st, oid, flds, node, why):
@@ -575,6 +576,77 @@ class LenEffect:
                 return (r[1], None, r[2])
         return None
 
+    def _const_node(self, mod, cls, e, depth=0):
+        """follow a name / Class.attr to the expression that defines it (class-level or module-level constant)"""
+        idx = self.idx
+        if depth > 4:
+            return None, mod, cls
+        if isinstance(e, ast.Name):
+            if cls is not None:
+                k, v = idx.class_attr(cls, e.id)
+                if v is not None:
+                    return self._const_node(k.mod, k, v, depth + 1)
+            r = idx.resolve(mod, e.id)
+            if r and r[0] == 'const':
+                return self._const_node(r[1], None, r[2], depth + 1)
+            return None, mod, cls
+        if isinstance(e, ast.Attribute) and isinstance(e.value, ast.Name):
+            c = idx.resolve_class(mod, e.value)
+            if c is None and cls is not None and e.value.id in ('self', 'cls', cls.name):
+                c = cls
+            if c is not None:
+                k, v = idx.class_attr(c, e.attr)
+                if v is not None:
+                    return self._const_node(k.mod, k, v, depth + 1)
+            return None, mod, cls
+        return e, mod, cls
+
+    def _translate_table(self, mod, cls, e):
+        """None when str.translate(table) maps every character to exactly one character, else why not / not evaluable"""
+        node, m2, c2 = self._const_node(mod, cls, e)
+        if node is None:
+            return 'table %s is not a constant the checker can follow' % ast.unparse(e)[:60]
+
+        def one_char(v):
+            if isinstance(v, ast.Constant) and isinstance(v.value, str):
+                return len(v.value) == 1
+            if isinstance(v, ast.Constant) and isinstance(v.value, int) and not isinstance(v.value, bool):
+                return True
+            if isinstance(v, ast.Call) and isinstance(v.func, ast.Name) and v.func.id in ('ord', 'chr') and len(v.args) == 1:
+                return one_char(v.args[0]) if v.func.id == 'ord' else True
+            return False
+        if isinstance(node, ast.Dict):
+            bad = [ast.unparse(v) for v in node.values if not one_char(v)]
+            return None if not bad and None not in node.keys else 'entry %s is not a single character' % (bad[0] if bad else '**')
+        if isinstance(node, ast.Call) and isinstance(node.func, ast.Attribute) and node.func.attr == 'maketrans' \
+                and isinstance(node.func.value, ast.Name) and node.func.value.id == 'str':
+            if len(node.args) == 2 and all(isinstance(a, ast.Constant) and isinstance(a.value, str) for a in node.args) \
+                    and len(node.args[0].value) == len(node.args[1].value):
+                return None
+            if len(node.args) == 1:
+                return self._translate_table(m2, c2, node.args[0])
+            return 'str.maketrans with a deletion argument or operands of different length'
+        if isinstance(node, ast.DictComp) and len(node.generators) == 1 and not node.generators[0].ifs:
+            g = node.generators[0]
+            seq, m3, c3 = self._const_node(m2, c2, g.iter)
+            if isinstance(seq, (ast.Tuple, ast.List)) and isinstance(g.target, ast.Tuple) \
+                    and all(isinstance(t, ast.Name) for t in g.target.elts) and isinstance(node.value, ast.Name):
+                names = [t.id for t in g.target.elts]
+                if node.value.id in names:
+                    pos = names.index(node.value.id)
+                    for el in seq.elts:
+                        if not (isinstance(el, (ast.Tuple, ast.List)) and len(el.elts) == len(names) and one_char(el.elts[pos])):
+                            return 'pair %s does not map to a single character' % ast.unparse(el)[:40]
+                    return None
+            if isinstance(seq, ast.Call) and isinstance(seq.func, ast.Name) and seq.func.id == 'zip' and len(seq.args) == 2 \
+                    and isinstance(node.value, ast.Name):
+                a, _m, _c = self._const_node(m3, c3, seq.args[0])
+                b, _m, _c = self._const_node(m3, c3, seq.args[1])
+                if isinstance(a, ast.Constant) and isinstance(b, ast.Constant) and isinstance(a.value, str) \
+                        and isinstance(b.value, str) and len(a.value) == len(b.value):
+                    return None
+        return 'table %s has a shape the checker does not evaluate' % ast.unparse(node)[:60]
+
     def _expr(self, mod, cls, e, env, depth):
         if isinstance(e, ast.Name):
             return env.get(e.id, ('other', 'value %s is not derived from the input' % e.id, e.lineno))
@@ -595,6 +667,11 @@ class LenEffect:
                                 and isinstance(b.value, str) and len(a.value) == len(b.value) and len(e.args) == 2:
                             return ('same', None)
                         return ('other', 'replace(%s, %s) does not keep the length' % (ast.unparse(a), ast.unparse(b)), e.lineno)
+                    if f.attr == 'translate' and len(e.args) == 1:
+                        why = self._translate_table(mod, cls, e.args[0])
+                        if why is None:
+                            return ('same', None)
+                        return ('other', 'translate() with a table that does not keep the length: ' + why, e.lineno)
                     if f.attr in NONPRESERVING:
                         return ('other', NONPRESERVING[f.attr], e.lineno)
                     return ('other', 'string method %s() with unknown length effect' % f.attr, e.lineno)
